@@ -40,7 +40,7 @@ func TestC05(t *testing.T) {
 	defer finishProperty(st)
 	t.Run("commit-twice", func(t *testing.T) { commitTwice(t, st) })
 	t.Run("random", func(t *testing.T) {
-		rapid.Check(t, func(t *rapid.T) {
+		checkCases(t, st, func(t *rapid.T) {
 			runHistoryCase(t, "C05", c05Profile, c05NonTrivial)
 		})
 	})
